@@ -14,6 +14,10 @@
 //!                MAX_STREAM_DATA arbitrarily (increasing and stale), acks, loses, stops;
 //!  * `receiver`  one real endpoint against a scripted hostile (but final-size consistent)
 //!                sender that places STREAM / FIN / RESET_STREAM frames around the limits.
+//!  * `sender-zero-rtt`  a resuming client (remembered server parameters) that opens and writes
+//!                streams before the handshake completes, then has its windows revised by
+//!                `revise_params` / `revise_max_data` (0-RTT accepted or rejected) exactly like
+//!                `qconnection/src/builder.rs` does it, then goes on like the `sender` stage.
 //! plus an exhaustive small-bound tier of the receiver stage.
 
 use std::{
@@ -67,6 +71,15 @@ const FC_SET: [u64; 6] = [0, 1, 100, 1_000, 70_000, 1 << 20];
 const SIG_FIN_BYPASS: &str = "fin-bypasses-stream-limit";
 const SIG_RESET_BYPASS: &str = "reset-final-size-beyond-stream-limit";
 const SIG_FINAL_UNCHARGED: &str = "final-size-not-charged-to-conn-limit";
+// genuine defects of the sending side after a 0-RTT rejection (stage sender-zero-rtt):
+//  * SendControler::revise_max_data(true, ..) resets max_data but keeps sent_data (qbase/src/flow.rs), while
+//    the streams re-send the 0-RTT bytes as fresh data: those bytes are charged twice, and if the new
+//    initial_max_data is below the bytes sent in 0-RTT, `max_data - sent_data` underflows;
+//  * a stream that sent its FIN in 0-RTT stays DataSent after the rejection and answers STOP_SENDING with
+//    RESET_STREAM final size = written() (qrecovery/src/send/sender.rs) whatever has been sent again.
+const SIG_ZR_DOUBLE: &str = "zero-rtt-rejected-conn-credit-charged-twice";
+const SIG_ZR_UNDERFLOW: &str = "zero-rtt-rejected-conn-credit-underflow";
+const SIG_ZR_RESET_FINAL: &str = "zero-rtt-rejected-after-fin-reset-final-size-unsent";
 
 fn vi(v: u64) -> VarInt {
     VarInt::from_u64(v).expect("value fits a varint")
@@ -300,6 +313,8 @@ struct Endpoint {
     params: ArcParameters,
     writers: BTreeMap<StreamId, Writer<Ext<Sink>>>,
     readers: BTreeMap<StreamId, Reader<Ext<Sink>>>,
+    /// packets are assembled by the 0-RTT package list (burst.rs: `package(.., true)`)
+    zero_rtt: bool,
 }
 
 struct Built {
@@ -310,7 +325,7 @@ struct Built {
 impl Endpoint {
     /// Construction follows qconnection/src/builder.rs: both components start from *default*
     /// remote parameters; once the handshake delivers the peer's parameters they are applied
-    /// through `revise_params` / `revise_max_data` (no 0-RTT here, that is C09's subject).
+    /// through `revise_params` / `revise_max_data` (no 0-RTT here: see `build_resuming`).
     fn build(role: Role, local: &Fc, remote: &Fc) -> Result<Self, Fail> {
         let sink = Sink::default();
         let wakers = ArcSendWakers::default();
@@ -355,7 +370,29 @@ impl Endpoint {
         };
         let flow = FlowController::new(0, local.max_data, sink.clone(), wakers.clone());
         flow.sender.revise_max_data(false, remote.max_data);
-        Ok(Self { role, sink, streams, flow, params, writers: BTreeMap::new(), readers: BTreeMap::new() })
+        Ok(Self { role, sink, streams, flow, params, writers: BTreeMap::new(), readers: BTreeMap::new(), zero_rtt: false })
+    }
+
+    /// A client that resumes a session: qconnection/src/builder.rs hands the *remembered* server
+    /// parameters to `init_stream_and_datagram` (DataStreams::new + FlowController::new) and to
+    /// `Parameters::new_client(.., Some(remembered), ..)`; the handshake is still to come.
+    fn build_resuming(local: &Fc, remembered: &Fc) -> Result<Self, Fail> {
+        let sink = Sink::default();
+        let wakers = ArcSendWakers::default();
+        let lp = client_params(local)?;
+        let rem = server_params(remembered)?;
+        let streams = DataStreams::new(
+            Role::Client,
+            &lp,
+            &rem,
+            Box::new(ConsistentConcurrency::new(MAXS, MAXS)),
+            sink.clone(),
+            wakers.clone(),
+            None,
+        );
+        let flow = FlowController::new(remembered.max_data, local.max_data, sink.clone(), wakers.clone());
+        let params = ArcParameters::from(Parameters::new_client(lp, Some(rem), odcid()));
+        Ok(Self { role: Role::Client, sink, streams, flow, params, writers: BTreeMap::new(), readers: BTreeMap::new(), zero_rtt: true })
     }
 
     /// `open_bi` / `open_uni`, polled once. None = no stream id available right now.
@@ -442,7 +479,7 @@ impl Endpoint {
             pkt.put_frame(&f);
             ctl.push(f);
         }
-        let _ = self.streams.try_load_data_into(&mut pkt, &self.flow.sender, false);
+        let _ = self.streams.try_load_data_into(&mut pkt, &self.flow.sender, self.zero_rtt);
         let recs = std::mem::take(&mut pkt.recs);
         let wire = Bytes::from(std::mem::take(&mut pkt.buf));
         // the wire image must parse back into exactly the recorded frames
@@ -550,6 +587,10 @@ struct SendSt {
     shutdown: bool,
     reset: bool,
     hit: bool,
+    /// a frame carrying FIN was emitted
+    fin_sent: bool,
+    /// sender-zero-rtt: the FIN had been sent in a 0-RTT packet when 0-RTT was rejected
+    fin_before_reject: bool,
 }
 
 #[derive(Debug, Clone, Default)]
@@ -619,6 +660,11 @@ struct SideModel {
     remote: Fc,
     snd_max: u64,
     snd_sent: u64,
+    /// connection credit the endpoint is known to hold back (known finding of the
+    /// sender-zero-rtt stage: 0-RTT bytes stay charged after a rejection); 0 everywhere else
+    overcharge: u64,
+    /// known findings met by the model in the middle of a history (handed to `ctx.known` by the stage)
+    tolerated: Vec<Fail>,
     rcv_adv: u64,
     streams: BTreeMap<StreamId, StreamSide>,
     order: Vec<StreamId>,
@@ -633,6 +679,8 @@ impl SideModel {
             remote,
             snd_max: remote.max_data,
             snd_sent: 0,
+            overcharge: 0,
+            tolerated: vec![],
             rcv_adv: local.max_data,
             streams: BTreeMap::new(),
             order: vec![],
@@ -729,6 +777,7 @@ impl SideModel {
             ensure!(end <= st.written, "send-unwritten", "{kind} stream {sid}: STREAM [{off},{end}) beyond the {} bytes written", st.written);
             let fresh = end.saturating_sub(st.highest);
             st.highest = st.highest.max(end);
+            st.fin_sent |= rec.frame.is_fin();
             if st.highest == st.limit && st.written >= st.limit && st.written > 0 {
                 st.hit = true;
             }
@@ -769,7 +818,7 @@ impl SideModel {
         drop(c);
         ensure_eq!(
             avail,
-            self.snd_max - self.snd_sent,
+            self.snd_max - self.snd_sent - self.overcharge,
             "credit-mismatch",
             "{when}: connection credit offered vs peer's limit {} minus fresh bytes sent {}",
             self.snd_max,
@@ -813,12 +862,23 @@ impl SideModel {
                     self.st.resets += 1;
                     if let Some(st) = self.send_st(sid) {
                         st.reset = true;
-                        ensure_eq!(
-                            r.final_size(),
-                            st.highest,
-                            "reset-final-size-mismatch",
-                            "{kind} stream {sid}: RESET_STREAM final size vs highest offset sent (the flow credit consumed)"
-                        );
+                        let (highest, written, limit, fin0) = (st.highest, st.written, st.limit, st.fin_before_reject);
+                        if fin0 && r.final_size() == written && highest < written {
+                            // sender-zero-rtt only: SIG_ZR_RESET_FINAL, described at the top of the file
+                            self.tolerated.push(Fail::new(
+                                SIG_ZR_RESET_FINAL,
+                                format!(
+                                    "{kind} stream {sid}: its FIN went out in a 0-RTT packet, 0-RTT was rejected, and the stream is stopped by the peer before everything was sent again: RESET_STREAM final size {written} (all bytes written) although the server has been sent only {highest} bytes of it (stream limit in force {limit})"
+                                ),
+                            ));
+                        } else {
+                            ensure_eq!(
+                                r.final_size(),
+                                highest,
+                                "reset-final-size-mismatch",
+                                "{kind} stream {sid}: RESET_STREAM final size vs highest offset sent (the flow credit consumed)"
+                            );
+                        }
                     }
                 }
                 _ => {}
@@ -1684,6 +1744,518 @@ fn sender_strategy(max_ops: usize) -> BoxedStrategy<SendCase> {
 }
 
 // ---------------------------------------------------------------------------
+// stage `sender-zero-rtt`: a resuming client. Streams are opened and written under the
+// *remembered* server parameters (0-RTT phase), then the handshake delivers the real ones and
+// `apply_parameters` (qconnection/src/builder.rs) revises the windows of the streams that
+// already exist: `DataStreams::revise_params(rejected, new)` first, then
+// `flow_ctrl.sender.revise_max_data(rejected, new.initial_max_data)`.
+//
+// Time line mirrored from qconnection:
+//   1. builder.rs `init_stream_and_datagram(local, remembered, ..)`, `Parameters::new_client(.., Some(remembered), ..)`
+//   2. 0-RTT phase: burst.rs loads `zero_rtt` packages (`data_streams.package(flow, true)`) while !tls_fin
+//   3. tls.rs `try_process_ee`: zero_rtt_accepted = remembered.is_0rtt_accepted(new) && resumed;
+//      `parameters.recv_remote_params(new)` (drops the remembered parameters) — the handshake is not
+//      finished yet, streams opened from here on are sized from the new parameters
+//   4. handshake done: `apply_parameters` as above; from now on 1-RTT packages only
+// Nothing from the server can be processed before 4 (no MAX_DATA / MAX_STREAM_DATA / ACK / loss
+// verdict for 0-RTT packets earlier: they all need 1-RTT keys). After a rejection the server has
+// discarded every 0-RTT packet: they are never acknowledged, only declared lost.
+// ---------------------------------------------------------------------------
+
+#[derive(Debug, Clone, Serialize, Deserialize)]
+struct ZrCase {
+    local: Fc,
+    /// the server's parameters remembered from the previous connection
+    remembered: Fc,
+    /// the server's parameters of this connection
+    granted: Fc,
+    /// the server refused early data / did not resume (any limit below the remembered one rejects anyway)
+    rejected: bool,
+    /// 0-RTT phase (Open / Write / Shutdown / Packet only)
+    early: Vec<SOp>,
+    /// between the arrival of the server's parameters and the end of the handshake (same alphabet)
+    gap: Vec<SOp>,
+    /// after the handshake: everything the `sender` stage does
+    late: Vec<SOp>,
+    /// the fair peer of the epilogue also raises MAX_DATA far enough for everything written
+    generous: bool,
+}
+
+/// at most this many streams are opened before the handshake completes
+const ZR_EARLY_STREAMS: u32 = 4;
+
+#[derive(Default)]
+struct ZrStats {
+    early_opened: u32,
+    gap_opened: u32,
+    frames_0rtt: u32,
+    bytes_0rtt: u64,
+    stale_losses: u32,
+    losses: u32,
+    acks_after_loss: u32,
+}
+
+/// the limit the server applies to a client-opened stream (RFC 9000 §18.2)
+fn zr_limit(fc: &Fc, sid: StreamId) -> u64 {
+    match sid.dir() {
+        Dir::Bi => fc.bidi_remote,
+        Dir::Uni => fc.uni,
+    }
+}
+
+fn run_zero_rtt_sender(case: &ZrCase, ctx: &mut CaseCtx) -> Outcome {
+    let world = SoloWorld {
+        ep: Endpoint::build_resuming(&case.local, &case.remembered)?,
+        m: SideModel::new(Role::Client, case.local, case.remembered),
+        flights: vec![],
+        opened: [0; 2],
+        peer_opened: [0; 2],
+    };
+    with_world(world, |w| {
+        let r = zr_history(case, ctx, w);
+        ctx.known.append(&mut w.m.tolerated);
+        r
+    })
+}
+
+/// an application / packet-assembly step before the handshake has completed
+fn zr_early_step(w: &mut SoloWorld, op: &SOp, opened: &mut u32) -> Outcome {
+    match op {
+        SOp::Open { uni } => {
+            if *opened < ZR_EARLY_STREAMS {
+                let before = w.opened[0] + w.opened[1];
+                w.open(*uni)?;
+                *opened += (w.opened[0] + w.opened[1] - before) as u32;
+            }
+        }
+        SOp::Write { s, len, polite } => {
+            let c = w.m.with_writer();
+            if !c.is_empty() {
+                let sid = c[gens::idx(*s, c.len())];
+                app_write(&mut w.ep, &mut w.m, sid, *len, *polite);
+            }
+        }
+        SOp::Shutdown { s } => {
+            let c = w.m.with_writer();
+            if !c.is_empty() {
+                let sid = c[gens::idx(*s, c.len())];
+                app_shutdown(&mut w.ep, &mut w.m, sid);
+            }
+        }
+        SOp::Packet { cap } => {
+            w.packet(*cap as usize)?;
+        }
+        // nothing else can happen before the handshake completes
+        _ => {}
+    }
+    Ok(())
+}
+
+fn zr_history(case: &ZrCase, ctx: &mut CaseCtx, w: &mut SoloWorld) -> Outcome {
+    let mut zs = ZrStats::default();
+    let qe = |e| harness(format!("parameter exchange: {e:?}"));
+
+    // ---- 1/2: 0-RTT phase under the remembered limits
+    for op in &case.early {
+        zr_early_step(w, op, &mut zs.early_opened)?;
+    }
+
+    // ---- 3: the server's transport parameters arrive (EncryptedExtensions)
+    let rem = server_params(&case.remembered)?;
+    let rp = server_params(&case.granted)?;
+    let rejected = case.rejected || !rem.is_0rtt_accepted(&rp);
+    {
+        let mut p = w.ep.params.lock_guard().map_err(|e| harness(format!("parameters: {e:?}")))?;
+        p.initial_scid_from_peer_need_equal(server_scid()).map_err(qe)?;
+        p.recv_remote_params(rp.clone()).map_err(qe)?;
+    }
+    // streams opened from here on are sized from the new parameters; the connection limit and
+    // the streams that exist keep the remembered values until the handshake is done
+    w.m.remote = case.granted;
+    zs.gap_opened = zs.early_opened;
+    for op in &case.gap {
+        zr_early_step(w, op, &mut zs.gap_opened)?;
+    }
+    zs.gap_opened -= zs.early_opened;
+    zs.frames_0rtt = w.m.st.stream_frames;
+    zs.bytes_0rtt = w.m.snd_sent;
+    // what the 0-RTT phase reached is classified on its own; "limit reached" starts afresh below
+    if w.m.any_hit() {
+        ctx.class("zr:0rtt:stream-limit-reached");
+    }
+    if w.m.st.conn_hit {
+        ctx.class("zr:0rtt:conn-limit-reached");
+    }
+    if zs.frames_0rtt > 0 {
+        ctx.class("zr:0rtt:stream-frames-sent");
+    }
+
+    // ---- 4: the handshake completes: builder.rs apply_parameters
+    let early: Vec<(StreamId, u64)> = w.m.with_send().into_iter().map(|s| (s, w.m.streams[&s].send.as_ref().unwrap().limit)).collect();
+    w.ep.streams.revise_params(rejected, &rp);
+    w.ep.flow.sender.revise_max_data(rejected, case.granted.max_data);
+    w.ep.zero_rtt = false;
+    // the reference model: the limits in force are now the ones of this connection
+    let charged_0rtt = w.m.snd_sent;
+    for (sid, _) in &early {
+        let g = zr_limit(&case.granted, *sid);
+        let st = w.m.send_st(*sid).unwrap();
+        if rejected {
+            // the server dropped every 0-RTT packet: it has seen nothing of this stream
+            st.limit = g;
+            st.highest = 0;
+            st.fin_before_reject = st.fin_sent;
+            st.fin_sent = false;
+        } else {
+            ensure!(g >= st.limit, "harness", "accepted 0-RTT with a smaller limit");
+            st.limit = g;
+        }
+        st.hit = false;
+    }
+    w.m.st.hit_own_bidi = false;
+    w.m.st.hit_own_uni = false;
+    w.m.st.conn_hit = false;
+    if rejected {
+        w.m.snd_sent = 0;
+        w.m.snd_max = case.granted.max_data;
+        // 0-RTT packets are never acknowledged; the loss detector gives up on them eventually
+        for f in w.flights.iter_mut() {
+            f.dropped = true;
+        }
+    } else {
+        w.m.snd_max = w.m.snd_max.max(case.granted.max_data);
+    }
+    w.emitted()?;
+    // Connection credit after a rejection. The server has seen none of the 0-RTT bytes, so the
+    // whole new initial_max_data is available (each byte counts once, against the limit of the
+    // connection it is delivered on). Observed instead: the bytes charged in the 0-RTT phase stay
+    // charged (SendControler::revise_max_data resets max_data but not sent_data).
+    if rejected && charged_0rtt > 0 {
+        let max = w.m.snd_max;
+        let probed = catch_unwind(AssertUnwindSafe(|| w.ep.flow.sender.credit(usize::MAX >> 2).map(|c| c.available() as u64)));
+        let what = format!(
+            "0-RTT rejected after {charged_0rtt} fresh bytes had been sent under the remembered initial_max_data {}; the server's initial_max_data is {max} and it has received nothing",
+            case.remembered.max_data
+        );
+        match probed {
+            Err(p) if charged_0rtt <= max => resume_unwind(p),
+            Err(_) => {
+                // the controller's mutex is poisoned now: nothing more can be checked
+                ctx.class("zr:rejected:credit-underflow");
+                fail!(SIG_ZR_UNDERFLOW, "{what}: asking for credit panics (max_data - sent_data underflows; without overflow checks the controller offers ~2^64 bytes, i.e. no connection limit at all)");
+            }
+            Ok(Err(e)) => return Err(harness(format!("send controller closed: {e:?}"))),
+            Ok(Ok(avail)) => {
+                if avail == max {
+                    // counted once
+                } else if charged_0rtt <= max && avail == max - charged_0rtt {
+                    ctx.known.push(Fail::new(
+                        SIG_ZR_DOUBLE,
+                        format!("{what}: credit offered {avail} = {max} - {charged_0rtt}; the re-sent bytes are charged a second time and {charged_0rtt} bytes of the peer's limit can never be used"),
+                    ));
+                    ctx.class("zr:rejected:credit-charged-twice");
+                    w.m.overcharge = charged_0rtt;
+                } else if charged_0rtt > max {
+                    ctx.class("zr:rejected:credit-underflow");
+                    fail!(SIG_ZR_UNDERFLOW, "{what}: credit offered {avail} (max_data - sent_data wrapped around)");
+                }
+                // anything else is reported by the probe below
+            }
+        }
+        w.emitted()?;
+    }
+    w.m.probe_credit(&w.ep, "after handshake completion")?;
+    w.emitted()?;
+    // the 0-RTT package list may still be polled once by a burst that read `tls_fin == false`
+    // just before: it must not load anything any more
+    {
+        let mut pkt = Packet::new(1200);
+        let _ = w.ep.streams.try_load_data_into(&mut pkt, &w.ep.flow.sender, true);
+        ensure!(pkt.recs.is_empty(), "zero-rtt-package-after-handshake", "the 0-RTT package list loaded {} STREAM frame(s) after the handshake had completed", pkt.recs.len());
+        w.emitted()?;
+        w.m.probe_credit(&w.ep, "after an empty 0-RTT load")?;
+        w.emitted()?;
+    }
+
+    // ---- after the handshake: the `sender` stage's alphabet
+    let peer = peer_of(w.ep.role);
+    for op in &case.late {
+        match op {
+            SOp::Open { uni } => w.open(*uni)?,
+            SOp::PeerOpen => {
+                if w.peer_opened[0] < OPEN_CAP {
+                    let sid = StreamId::new(peer, Dir::Bi, w.peer_opened[0]);
+                    w.peer_opened[0] += 1;
+                    w.inject_ok(Frame::Stream(StreamFrame::new(sid, 0, 0), Bytes::new()))?;
+                }
+            }
+            SOp::Accept => w.accept()?,
+            SOp::Write { s, len, polite } => {
+                let c = w.m.with_writer();
+                if !c.is_empty() {
+                    let sid = c[gens::idx(*s, c.len())];
+                    app_write(&mut w.ep, &mut w.m, sid, *len, *polite);
+                }
+            }
+            SOp::Shutdown { s } => {
+                let c = w.m.with_writer();
+                if !c.is_empty() {
+                    let sid = c[gens::idx(*s, c.len())];
+                    app_shutdown(&mut w.ep, &mut w.m, sid);
+                }
+            }
+            SOp::Cancel { s } => {
+                let c = w.m.with_writer();
+                if !c.is_empty() {
+                    let sid = c[gens::idx(*s, c.len())];
+                    if let Some(wr) = w.ep.writers.get_mut(&sid) {
+                        wr.cancel(7);
+                    }
+                    w.emitted()?;
+                }
+            }
+            SOp::MaxData { lim } => {
+                let v = lim.apply(w.m.snd_max);
+                w.inject_ok(Frame::MaxData(MaxDataFrame::new(vi(v))))?;
+                w.m.probe_credit(&w.ep, "after MAX_DATA")?;
+                w.emitted()?;
+            }
+            SOp::MaxStreamData { s, lim } => {
+                let c = w.m.with_send();
+                if !c.is_empty() {
+                    let sid = c[gens::idx(*s, c.len())];
+                    let cur = w.m.send_st(sid).map(|st| st.limit).unwrap_or(0);
+                    let v = lim.apply(cur);
+                    w.inject_ok(Frame::StreamCtl(StreamCtlFrame::MaxStreamData(MaxStreamDataFrame::new(sid, vi(v)))))?;
+                }
+            }
+            SOp::StopSending { s } => {
+                let c = w.m.with_send();
+                if !c.is_empty() {
+                    let sid = c[gens::idx(*s, c.len())];
+                    w.inject_ok(Frame::StreamCtl(StreamCtlFrame::StopSending(StopSendingFrame::new(sid, vi(3)))))?;
+                }
+            }
+            SOp::Packet { cap } => {
+                w.packet(*cap as usize)?;
+            }
+            SOp::Ack { i } => {
+                // (a rejected 0-RTT packet is never acknowledged)
+                let c: Vec<usize> = (0..w.flights.len()).filter(|k| !w.flights[*k].acked && !w.flights[*k].dropped).collect();
+                if let Some(idx) = choose(&c, *i) {
+                    if w.flights[idx].lost {
+                        zs.acks_after_loss += 1;
+                    }
+                    w.flights[idx].acked = true;
+                    let fl = w.flights[idx].clone();
+                    w.ep.on_acked(&fl);
+                    w.emitted()?;
+                }
+            }
+            SOp::Lose { i } => {
+                let c: Vec<usize> = (0..w.flights.len()).filter(|k| !w.flights[*k].acked && !w.flights[*k].lost).collect();
+                if let Some(idx) = choose(&c, *i) {
+                    zs.losses += 1;
+                    if w.flights[idx].dropped {
+                        zs.stale_losses += 1;
+                    }
+                    w.flights[idx].lost = true;
+                    let fl = w.flights[idx].clone();
+                    w.ep.on_lost(&fl);
+                    w.emitted()?;
+                }
+            }
+        }
+    }
+
+    // ---- epilogue: a fair (and, if asked for, generous) peer. Rejected 0-RTT packets are
+    // declared lost, everything else outstanding is acknowledged, then packets are assembled
+    // until nothing more comes out: the windows in force must have been used exactly.
+    if case.generous {
+        let written: u64 = w.m.with_send().iter().map(|s| w.m.streams[s].send.as_ref().unwrap().written).sum();
+        let v = w.m.snd_max + w.m.overcharge + written + 1;
+        w.inject_ok(Frame::MaxData(MaxDataFrame::new(vi(v))))?;
+        w.m.probe_credit(&w.ep, "after the generous MAX_DATA")?;
+        w.emitted()?;
+    }
+    for idx in 0..w.flights.len() {
+        if w.flights[idx].dropped {
+            if !w.flights[idx].lost {
+                w.flights[idx].lost = true;
+                zs.stale_losses += 1;
+                let fl = w.flights[idx].clone();
+                w.ep.on_lost(&fl);
+            }
+        } else if !w.flights[idx].acked {
+            w.flights[idx].acked = true;
+            let fl = w.flights[idx].clone();
+            w.ep.on_acked(&fl);
+        }
+    }
+    w.flights.clear();
+    w.emitted()?;
+    let mut rounds = 0;
+    loop {
+        rounds += 1;
+        ensure!(rounds < 3000, "sender-runaway", "packet assembly never runs dry");
+        let any = w.packet(1200)?;
+        for fl in std::mem::take(&mut w.flights) {
+            w.ep.on_acked(&fl);
+        }
+        w.emitted()?;
+        if !any {
+            break;
+        }
+    }
+    if w.m.snd_sent + w.m.overcharge < w.m.snd_max {
+        for sid in w.m.with_writer() {
+            let kind = w.m.kind(sid);
+            let (sent_now, max_now) = (w.m.snd_sent, w.m.snd_max);
+            let st = w.m.send_st(sid).unwrap().clone();
+            if st.reset {
+                continue;
+            }
+            let was_early = early.iter().find(|(s, _)| *s == sid);
+            let want = st.written.min(st.limit);
+            ensure_eq!(
+                st.highest,
+                want,
+                "send-window-underused",
+                "{kind} stream {sid} ({}): at quiescence with connection credit left ({} of {}), highest offset sent vs min(written {}, stream limit {})",
+                match was_early {
+                    Some((_, old)) => format!("opened before the handshake completed under a limit of {old}, 0-RTT {}", if rejected { "rejected" } else { "accepted" }),
+                    None => "opened after the handshake".to_string(),
+                },
+                sent_now,
+                max_now,
+                st.written,
+                st.limit
+            );
+        }
+        ctx.class("zr:quiescent-with-conn-credit");
+    } else {
+        ctx.class("zr:quiescent-at-conn-limit");
+    }
+    w.m.probe_credit(&w.ep, "at quiescence")?;
+
+    // ---- classification
+    w.m.classify(ctx, "zr");
+    ctx.class(if rejected { "zr:rejected" } else { "zr:accepted" });
+    if zs.gap_opened > 0 {
+        ctx.class("zr:stream-opened-between-parameters-and-handshake-end");
+    }
+    if zs.stale_losses > 0 {
+        ctx.class("zr:rejected-0rtt-packet-declared-lost");
+    }
+    if zs.losses > zs.stale_losses {
+        ctx.class("zr:loss");
+    }
+    if zs.acks_after_loss > 0 {
+        ctx.class("zr:ack-after-loss");
+    }
+    if case.granted.max_data != case.remembered.max_data {
+        ctx.class("zr:conn-limit-differs");
+    }
+    if rejected && case.granted.max_data < case.remembered.max_data {
+        ctx.class("zr:rejected:conn-limit-shrunk");
+    }
+    ctx.class(format!("zr:streams-before-handshake:{}", early.len()));
+    let mut nt = false;
+    let mut late_hit = false;
+    for sid in w.m.with_send() {
+        if sid.role() != Role::Client {
+            continue;
+        }
+        let st = w.m.streams[&sid].send.as_ref().unwrap();
+        let dir = if sid.dir() == Dir::Bi { "bidi" } else { "uni" };
+        match early.iter().find(|(s, _)| *s == sid) {
+            Some((_, old)) => {
+                let differs = *old != zr_limit(&case.granted, sid);
+                if differs {
+                    ctx.class(format!("zr:early-{dir}:limit-differs"));
+                    if rejected && zr_limit(&case.granted, sid) < *old {
+                        ctx.class(format!("zr:early-{dir}:limit-shrunk-by-rejection"));
+                    }
+                }
+                if st.hit {
+                    ctx.class(format!("zr:early-{dir}:limit-reached-after-handshake"));
+                    if differs {
+                        ctx.class(format!("zr:early-{dir}:differing-limit-reached-after-handshake"));
+                        nt = true;
+                    }
+                }
+            }
+            None => {
+                if st.hit {
+                    late_hit = true;
+                }
+            }
+        }
+    }
+    if late_hit {
+        ctx.class("zr:late-stream:limit-reached");
+    }
+    if case.granted.bidi_local != case.granted.bidi_remote && case.granted.bidi_remote != case.granted.uni {
+        ctx.class("cfg:granted-limits-differ");
+    }
+    if nt {
+        ctx.nontrivial();
+        ctx.note(json!({
+            "rejected": rejected,
+            "stream_frames_0rtt": zs.frames_0rtt,
+            "bytes_0rtt": zs.bytes_0rtt,
+            "stream_frames": w.m.st.stream_frames,
+            "retrans": w.m.st.retrans,
+            "conn_sent": w.m.snd_sent,
+            "conn_max": w.m.snd_max,
+            "credit_held_back": w.m.overcharge,
+        }));
+    }
+    Ok(())
+}
+
+fn zr_early_op() -> BoxedStrategy<SOp> {
+    prop_oneof![
+        2 => any::<bool>().prop_map(|uni| SOp::Open { uni }),
+        7 => (any::<u16>(), write_len(), prop::bool::weighted(0.25)).prop_map(|(s, len, polite)| SOp::Write { s, len, polite }),
+        1 => any::<u16>().prop_map(|s| SOp::Shutdown { s }),
+        6 => cap_strategy().prop_map(|cap| SOp::Packet { cap }),
+    ]
+    .boxed()
+}
+
+fn zr_strategy(max_late: usize) -> BoxedStrategy<ZrCase> {
+    (
+        fc_strategy(),
+        fc_strategy(),
+        fc_strategy(),
+        any::<bool>(),
+        (any::<bool>(), write_len()),
+        proptest::collection::vec(zr_early_op(), 0..=10),
+        proptest::collection::vec(zr_early_op(), 0..=2),
+        proptest::collection::vec(sop_strategy(), 0..=max_late),
+        prop::bool::weighted(0.75),
+    )
+        .prop_map(|(local, a, b, rejected, (uni, len), mut early_ops, gap, late, generous)| {
+            // accepted 0-RTT: RFC 9000 §7.4.1 — no limit below the remembered one (both drawn from
+            // the same value set, ordered); rejected: anything goes
+            let (remembered, granted) = if rejected {
+                (a, b)
+            } else {
+                (
+                    Fc { max_data: a.max_data.min(b.max_data), bidi_local: a.bidi_local.min(b.bidi_local), bidi_remote: a.bidi_remote.min(b.bidi_remote), uni: a.uni.min(b.uni) },
+                    Fc { max_data: a.max_data.max(b.max_data), bidi_local: a.bidi_local.max(b.bidi_local), bidi_remote: a.bidi_remote.max(b.bidi_remote), uni: a.uni.max(b.uni) },
+                )
+            };
+            // at least one stream is opened and written before the handshake completes
+            let mut early = vec![SOp::Open { uni }, SOp::Write { s: 0, len, polite: false }];
+            early.append(&mut early_ops);
+            ZrCase { local, remembered, granted, rejected, early, gap, late, generous }
+        })
+        .boxed()
+}
+
+// ---------------------------------------------------------------------------
 // stage `receiver`: one real endpoint, the peer is a hostile sender that respects the
 // final-size rules (C12's subject) but not the flow-control limits
 // ---------------------------------------------------------------------------
@@ -2165,11 +2737,19 @@ fn main() {
          endpoint vs a scripted sender placing STREAM / FIN / RESET_STREAM frames at, just inside and beyond the advertised \
          stream and connection limits (final-size rules respected), with reads. non-trivial = the limits that apply (the \
          peer's three stream-data parameters for a sender, the own ones for the receiver) are pairwise different AND some \
-         stream (or the connection) was driven exactly to its limit or a violation was detected. distinct = hash of the case.",
+         stream (or the connection) was driven exactly to its limit or a violation was detected. sender-zero-rtt: a client built \
+         with remembered server parameters (remembered and new parameters drawn independently from the same set; accepted 0-RTT: \
+         every new limit >= the remembered one by construction, rejected: anything), 1-4 streams opened / written / shut down and \
+         packets assembled by the 0-RTT package list before the handshake completes, optionally more streams between the arrival \
+         of the server's parameters and the end of the handshake, then revise_params + revise_max_data as builder.rs calls them, \
+         then the sender stage's alphabet (rejected 0-RTT packets can only be declared lost) and a fair epilogue; non-trivial = a \
+         stream opened before the handshake completed whose remembered and new limit differ was driven exactly to its limit \
+         after the revision. distinct = hash of the case.",
     );
     check.assume("the frame-level wiring in this file mirrors qconnection (builder.rs, space.rs, space/data.rs, path/burst.rs); the real packet/crypto layers are not in the loop");
     check.assume("a packet is dispatched frame by frame in order (the real per-kind pipes may interleave kinds differently)");
-    check.assume("no 0-RTT: parameters are applied through revise_params(false, ..) before any stream exists (0-RTT window revision is covered by C09)");
+    check.assume("pair / sender / receiver: no 0-RTT, parameters are applied through revise_params(false, ..) before any stream exists; sender-zero-rtt: the handshake time line of a resuming client is the one read from qconnection (builder.rs init_stream_and_datagram + apply_parameters, tls.rs try_process_ee, burst.rs load_spaces): nothing from the server is processed and no 0-RTT packet is acknowledged or declared lost before apply_parameters has run; a rejected 0-RTT packet is never acknowledged, only declared lost");
+    check.assume("sender-zero-rtt: no stream is cancelled before the handshake completes (a RESET_STREAM whose final size was fixed in a rejected 0-RTT phase is not this stage's subject); the SendBuf bookkeeping of a rejection is C09's subject");
     check.assume("the scripted hostile sender obeys the final-size rules and never sends empty non-FIN frames ahead of the data");
     check.max_shrink_iters = 1500;
 
@@ -2181,6 +2761,8 @@ fn main() {
     check.stage("receiver", n, 16, || receiver_strategy(40), run_receiver);
     let n = check.pick(24_000, 1_500_000);
     check.stage("sender", n, 16, || sender_strategy(70), run_sender);
+    let n = check.pick(30_000, 1_500_000);
+    check.stage("sender-zero-rtt", n, 16, || zr_strategy(50), run_zero_rtt_sender);
     let n = check.pick(16_000, 800_000);
     check.stage("pair", n, 16, || pair_strategy(90), run_pair);
     check.finish();
